@@ -64,6 +64,15 @@ func batchMonitor(c BatchCase, obs []addObs, recs []Rec, txs []Tx) []core.Violat
 			bad("kinesis-batch-over-5MiB", fmt.Sprintf("Kinesis batch holds %d bytes of data+keys", tot))
 		}
 	}
+	// a record above the per-record limit is dropped AND counted, whatever the state of the batch
+	if c.Kind.Kinesis != "" {
+		for i, m := range c.Msgs {
+			if !m.marker() && m.JLen > awsMaxRecordBytes && obs[i].res != "ATooBig" {
+				bad("over-limit-record-not-dropped-and-counted", fmt.Sprintf("Add %d: a record of %d bytes (limit %d) was answered %s instead of being dropped as too big and counted", i, m.JLen, awsMaxRecordBytes, obs[i].res))
+				break
+			}
+		}
+	}
 	// every non-marker Add is either in the payload, counted as dropped-too-big, or refused
 	// without side effect (full / can't fit / invalid); the transactions map counts exactly the
 	// accepted and the too-big ones
@@ -114,7 +123,7 @@ func batchCaseGallina(c BatchCase, obs []addObs, recs []Rec, txs []Tx) string {
 	return core.GTuple(c.Kind.gallina(), limitsGallina(), core.GStr(c.PKey), core.GList(ms), core.GList(os_), recsGallina(recs), txGallina(txs))
 }
 
-var sizeChoices = []int{0, 1, 2, 17, 300, 4096, awsMaxRecordBytes - 1, awsMaxRecordBytes, awsMaxRecordBytes + 1, awsMaxRecordBytes - 40, 700000}
+var sizeChoices = []int{0, 1, 2, 17, 300, 4096, awsMaxRecordBytes - 1, awsMaxRecordBytes, awsMaxRecordBytes + 1, awsMaxRecordBytes - 40, 700000, awsMaxBatchBytes + 1, awsMaxBatchBytes - 3}
 
 func genBatchCase(rng *rand.Rand) BatchCase {
 	c := BatchCase{Mode: "gen"}
@@ -145,6 +154,13 @@ func genBatchCase(rng *rand.Rand) BatchCase {
 			m.JLen = sizeChoices[rng.Intn(len(sizeChoices))] // hug the 1 MiB and 5 MiB limits
 		default:
 			m.JLen = []int{0, 1, 5, 100, 1000}[rng.Intn(5)]
+		}
+		if c.Kind.Kinesis != "" && shape == 5 && n <= 12 {
+			// fill the batch close to its byte budget, then offer a record above the per-record limit
+			m.JLen = awsMaxRecordBytes - 40
+			if i >= 4 {
+				m.JLen = []int{awsMaxRecordBytes + 1, awsMaxBatchBytes + 1, 2 * awsMaxRecordBytes}[rng.Intn(3)]
+			}
 		}
 		if rng.Intn(12) == 0 {
 			m.Op = []string{"BEGIN", "COMMIT"}[rng.Intn(2)]
